@@ -133,7 +133,7 @@ RenderStrLit(s, q) == <<q>> \o FlattenSeq([i \in 1..Len(s) |-> EscChar(s[i], q)]
 
 \* number literal: integers in decimal; floats as <m>e<e>  (valid: number = int [frac] [exp])
 RenderNum(v) ==
-  IF ~v.f /\ v.e >= 0 THEN RenderInt(v.m * Pow10(v.e))
+  IF ~v.f /\ v.e >= 0 THEN (IF v.m = 0 THEN <<48>> ELSE RenderInt(v.m) \o [i \in 1..v.e |-> 48])      \* digits then e zeros (no 32-bit overflow)
   ELSE RenderInt(v.m) \o <<101>> \o RenderInt(v.e)
 
 RenderLit(v) ==
